@@ -17,7 +17,7 @@ EXTENDS Naturals, Sequences, FiniteSets, TLC, Json
 
 CONSTANTS MaxFields, MaxLayers,
           LeafKinds,        \* subset of {"int","str","dur","time","slice","map","arr","pint"}
-          SkipKinds,        \* subset of {"dash","chan","func","unexp"}
+          SkipKinds,        \* subset of {"dash","dashref","chan","func","unexp"} (dashref: a dials:"-" field holding a reference)
           StructKinds,      \* subset of {"struct","pstruct","emb"}
           InnerShapes,      \* shapes of nested structs
           SampleN,          \* emit one case in SampleN (1: all)
@@ -35,8 +35,8 @@ Id(x) == [t |-> "id", v |-> x]          \* the value layer x gave this leaf (0: 
 Empty(x) == [t |-> "empty", v |-> x]    \* set, but an empty slice / map
 St(s) == [t |-> "st", f |-> s]
 IsStruct(f) == f.k \in {"struct", "pstruct", "emb"}
-Skipped(f)  == f.k \in {"dash", "chan", "func", "unexp"}
-SkippedByOverlay(f) == IF BUG_IndexDrift THEN f.k \in {"dash", "chan", "unexp"} ELSE Skipped(f)
+Skipped(f)  == f.k \in {"dash", "dashref", "chan", "func", "unexp"}
+SkippedByOverlay(f) == IF BUG_IndexDrift THEN f.k \in {"dash", "dashref", "chan", "unexp"} ELSE Skipped(f)
 
 RECURSIVE SeqsUpTo(_, _)
 SeqsUpTo(S, n) == IF n = 0 THEN {<<>>} ELSE LET r == SeqsUpTo(S, n - 1) IN r \cup {Append(q, x) : q \in r, x \in S}
